@@ -412,11 +412,11 @@ def value_checks(rdclass, rdtype, wire, use_origin, fails):
     if use_origin:
         try:
             x_rel = dns.rdata.from_wire(rdclass, rdtype, wire, 0, len(wire), origin=ORIGIN)
-            x_sub = dns.rdata.from_wire(rdclass, rdtype, wire, 0, len(wire), origin=ORIGIN2)
             # relativizing is case-insensitive: a name below the origin comes back with the origin's
             # own spelling, so the expected absolute record is the re-absolutized relative one
             wn = x_rel.to_wire(origin=ORIGIN)
             x_absn = dns.rdata.from_wire(rdclass, rdtype, wn, 0, len(wn))
+            x_sub = dns.rdata.from_wire(rdclass, rdtype, wn, 0, len(wn), origin=ORIGIN2)
         except Exception:  # noqa
             x_rel = x_sub = x_absn = None
     tname = dns.rdatatype.to_text(rdtype)
